@@ -206,7 +206,7 @@ class Ctx:
         if dfs:
             jopts.append('-Dtlc2.tool.queue.IStateQueue=StateDeque')
         cmd = ['timeout', str(timeout), 'java'] + jopts + ['-cp', TLA_CP, 'tlc2.TLC',
-               '-metadir', os.path.join(rd, 'meta'), '-config', cfg, '-deadlock' if False else '-noGenerateSpecTE']
+               '-metadir', os.path.join(rd, 'meta'), '-config', cfg, '-noGenerateSpecTE']
         cmd += ['-workers', str(workers or ('1' if simulate else 'auto'))]
         if simulate:
             cmd += ['-simulate', simulate]
@@ -295,6 +295,81 @@ class Ctx:
         res.stdout = '\n'.join(tail)
         if not keep:
             os.unlink(outp)
+
+    def tv(self, module, cfg, trace_path, name=None, count=True, timeout=900, workers=1, extra_files=None, **kw):
+        """Trace validation of independent events (non-stopping trace spec, DESIGN section 3).
+        The trace spec prints <<"REJECT", line, sig>> / <<"DRIFT", line>> and must consume the whole trace
+        (POSTCONDITION). Returns (rejects [(line, sig)], drift_lines [line], TlcResult)."""
+        files = {'trace.ndjson': trace_path}
+        files.update(extra_files or {})
+        r = self.tlc(module, cfg, files=files, workers=workers, name=name, count=count, timeout=timeout, **kw)
+        self.tlc_expect_ok(r, 'trace validation %s/%s' % (module, name or cfg))
+        rej, drift = [], []
+        for line in r.raw_printed:
+            m = re.match(r'<<"REJECT",\s*(\d+)(?:,\s*"?([^">]*)"?)?.*>>', line)
+            if m:
+                rej.append((int(m.group(1)), m.group(2) or 'rejected'))
+                continue
+            m = re.match(r'<<"DRIFT",\s*(\d+).*>>', line)
+            if m:
+                drift.append(int(m.group(1)))
+        return rej, drift, r
+
+    def tv_stateful(self, module, cfg, traces, name=None, reset_event=None, max_rejects=20, count=True, timeout=900, **kw):
+        """Trace validation of stateful traces. `traces` is a list of event lists; they are concatenated with
+        `reset_event` (default {"op":"reset"}) in front of each. The trace spec must
+          - handle the reset event by re-initialising its state, and
+          - have POSTCONDITION  IF diameter-1 = Len(Trace) THEN TRUE ELSE PrintT(<<"PREFIX", diameter-1>>) /\\ FALSE
+        A rejected trace is recorded and removed, and validation is repeated for the rest (so every trace is judged).
+        Returns list of (trace_index, event_index_within_trace (0-based) of first unmatched event)."""
+        reset_event = reset_event or {'op': 'reset'}
+        live = list(range(len(traces)))
+        rejected = []
+        rounds = 0
+        while live:
+            rounds += 1
+            evs, owner = [], []
+            for ti in live:
+                evs.append(reset_event); owner.append((ti, -1))
+                for k, e in enumerate(traces[ti]):
+                    evs.append(e); owner.append((ti, k))
+            tp = os.path.join(self.build, '%s_r%d.ndjson' % (name or module, rounds))
+            write_ndjson(tp, evs)
+            r = self.tlc(module, cfg, files={'trace.ndjson': tp}, workers=1, name='%s_r%d' % (name or module, rounds),
+                         count=count, timeout=timeout, **kw)
+            if r.rc == 124:
+                raise Inconclusive('TLC timeout in trace validation ' + module)
+            prefix = None
+            for line in r.raw_printed:
+                m = re.match(r'<<"PREFIX",\s*(\d+)>>', line)
+                if m:
+                    prefix = int(m.group(1))
+            if r.ok() and prefix is None:
+                break
+            if prefix is None or not r.postcondition_false and not r.violated:
+                sys.stderr.write(r.stdout[-3000:] + '\n')
+                raise Inconclusive('trace validation %s failed without a PREFIX report (rc=%s err=%s)' % (module, r.rc, r.error))
+            if prefix >= len(evs):
+                raise Inconclusive('trace validation %s: bad prefix %d' % (module, prefix))
+            ti, k = owner[prefix]      # first unmatched event (0-based index = matched prefix length)
+            rejected.append((ti, k))
+            live.remove(ti)
+            if len(rejected) >= max_rejects:
+                self.inconc('more than %d rejected traces in %s; remaining traces not judged' % (max_rejects, module))
+                break
+        return rejected
+
+    def binding_demo(self, module, cfg, events, expect_reject_lines, name=None, **kw):
+        """Anti-vacuity: `events` is a short trace in which exactly the 1-based lines `expect_reject_lines` were
+        corrupted by the caller; the trace spec must reject exactly those."""
+        dp = os.path.join(self.build, (name or module) + '_demo.ndjson')
+        write_ndjson(dp, events)
+        rej, _, _ = self.tv(module, cfg, dp, name=(name or module) + '_demo', count=False, **kw)
+        lines = sorted(set(l for l, _ in rej))
+        ok = lines == sorted(expect_reject_lines)
+        self.cov['binding_demo'].append(dict(spec=module, corrupted_lines=sorted(expect_reject_lines), rejected_lines=lines, ok=ok))
+        if not ok:
+            raise Inconclusive('binding demo failed for %s: corrupted %s, rejected %s' % (module, expect_reject_lines, lines))
 
     def tlc_expect_ok(self, res, what):
         if res.rc == 124 or res.error == 'timeout':
